@@ -516,4 +516,40 @@ PROPS["C02"] = {
     "assumptions": ["H-asn1, H-ssh: decoded fields are what the container stores"],
 }
 
+def nt_c19(lhs, impl):
+    f = lhs.split(" ")
+    status = f[3] if len(f) > 3 else "?"
+    if "G" in f:
+        g = f[f.index("G"):]
+        nsig = g[8] if len(g) > 8 else "?"
+        sigs = tuple(g[9 + 3 * i] for i in range(int(nsig))) if nsig.isdigit() else ()
+        lead0 = tuple(len(_hexbytes(g[11 + 3 * i]).decode("latin1")) - len(_hexbytes(g[11 + 3 * i]).decode("latin1").lstrip("0")) for i in range(int(nsig))) if nsig.isdigit() else ()
+        return ("wf", g[5] != "-", g[6] != "-", g[7] != "-", sigs, lead0, impl[:2])
+    return ("mut", status, impl[:6], len(f) % 17)
+
+PROPS["C19"] = {
+    "modules": ["WhatIs.Props.C19"],
+    "theorems": ["WhatIs.C19.keyid_readback", "WhatIs.C19.identity_readback", "WhatIs.C19.string_tag_stored",
+                 "WhatIs.C19.ill_typed_is_absent", "WhatIs.C19.unsigned_iff", "WhatIs.C19.sig_readback"],
+    "facts": {"rpm.uncheckedAccessorCalls": [], "rpm.keyIdFormats": ["%016X", "%016X"]},
+    "nontrivial": nt_c19,
+    "rule": "packages written by the harness (lead v3/v4, signature header, main header): name/version/release/arch strings, each of "
+            "MD5/SHA-1/SHA-256 digests present or absent, each of the RSA/DSA/GPG/PGP signature tags present or absent with v4 "
+            "(RSA, DSA, ECDSA, EdDSA, RSA-sign-only) and v3 (RSA, DSA) signature packets over six hash algorithms, issuer key ids with "
+            "0..15 leading zero nibbles, v4 packets without issuer subpacket; every third package has one index entry's type, count or "
+            "offset mutated (all 11 types, boundary counts); plus the three fixtures. distinct non-trivial = distinct (digest presence, "
+            "signature tag set, leading-zero counts, outcome) / (mutation outcome)",
+    "design_ref": "DESIGN.md §5 C19",
+    "level_text": "Proof: for ALL decoded packages the model of RPMFile reads tags through total, type-checked accessors (ill-typed or "
+                  "empty tags read as absent: no failure), identity attributes are the stored first strings, 'Signature: none' iff no "
+                  "signature tag holds a value, and the issuer key id is printed as exactly 16 hex digits that read back to the 64-bit id "
+                  "for every id. Tied to the code by the regenerated facts that RPMFile no longer calls go-rpm's unchecked accessors and "
+                  "formats key ids with %016X, and by a differential run against generator ground truth incl. mutated headers.",
+    "level_note": "Trusted: Lean kernel; translator facts; go-rpm header decoding and the vendored packet reader as oracles. go-rpm itself "
+                  "can panic/over-allocate while DECODING hostile headers (library code, not modelled: see C01/C08).",
+    "technique": "Lean 4 proof (total accessors, hex read-back for all 2^64 ids, attribute-list reasoning) + regenerated structural facts + differential correspondence with ground truth",
+    "trusted_base": ["go-rpm ReadPackageFile (oracle)", "vendored openpgp packet.Read for signature blobs (oracle)"],
+    "assumptions": ["the decoded index entries are what the package stores"],
+}
+
 NOT_CLAIMED = {}
